@@ -172,6 +172,12 @@ def _vec_body(kind, idx, n, nones, namei, limit_global):
             v = Vector(vals, name=NAMEMENU[namei])
         why = check_vector_repr(v, vals, limit_global)
         if why: return H.fail(why)
+        # the global setting is read at every repr: the SAME vector follows a later set_repr_rows
+        limit2 = limit_global + 4 if limit_global <= 6 else 4
+        serif.set_repr_rows(limit2)
+        why = check_vector_repr(v, vals, limit2)
+        if why: return H.fail('after set_repr_rows(%d) following an earlier repr under %d: %s' % (limit2, limit_global, why))
+        serif.set_repr_rows(limit_global)
         # the same data as a table column and as a row-displayed vector
         t = Table([Vector(vals, name=NAMEMENU[namei], dtype=(object if kind == 'object' and n else None))]) if n else None
         if t is not None:
